@@ -38,6 +38,11 @@ def generate(rng, tier):
         if "\n" not in nm and "\r" not in nm:
             # pkg_summary's pkgbase()/pkgversion() must give the same split
             cases.append(Case("sum.ops", ["s:15:" + enc(nm)], meta={"n": nm, "sum": True}))
+            # ... also when PKGNAME was set before: an earlier name sharing the 'base-' prefix, a longer one, a shorter one
+            # (the split belongs to the current value, nothing of the previous one may survive)
+            for prev in (nm.split("-")[0] + "-1.0", nm + "-extra-9", nm[: max(1, len(nm) // 2)], "zz-0"):
+                if "\n" not in prev and "\r" not in prev:
+                    cases.append(Case("sum.ops", ["s:15:" + enc(prev), "s:15:" + enc(nm)], meta={"n": nm, "sum": True}))
         # revision as used by the comparison: name-version vs the same version with nb k
         if "-" in nm:
             base, ver = nm.rsplit("-", 1)
